@@ -273,7 +273,11 @@ func c08prop(r *simkit.Run) {
 	}
 	h := simkit.NewHash()
 	h.Str(string(res.backendReq))
-	h.Str(res.rawHead)
+	for _, l := range strings.Split(res.rawHead, "\r\n") {
+		if !strings.HasPrefix(l, "Date:") { // the server in front of the proxy stamps the wall-clock second
+			h.Str(l)
+		}
+	}
 	r.SetDigest(uint64(h))
 	if len(hs) >= 2 {
 		r.Nontrivial()
